@@ -46,6 +46,7 @@ type Case struct {
 	X *X2Case     `json:"x,omitempty"`
 	I *IfaceCase  `json:"i,omitempty"`
 	V *VarCase    `json:"v,omitempty"`
+	F *FwdCase    `json:"f,omitempty"`
 
 	// Src is the generated script (informational; rebuilt on replay).
 	Src string `json:"src,omitempty"`
